@@ -118,7 +118,7 @@ def make_case(index, rng, tier):
                 "unix": rng.randrange(3) == 0, "pidfile": rng.randrange(4) != 0,
                 "buggify": {"pyticks": rng.randrange(3) == 0, "fork_child_first": rng.randrange(2) == 0, "spurious_select": rng.randrange(3) == 0,
                             "random_spawn_delay": rng.randrange(2) == 0},
-                "extra": rng.choice([None, None, "second-signal", "killw", "ttou-before", "hup-before", "rm-socket"])}
+                "extra": rng.choice([None, None, "second-signal", "killw", "ttou-before", "hup-before", "rm-socket", "burst-before"])}
     kind = rng.choice(["sync", "gthread", "gevent", "eventlet"])
     clients = []
     for i in range(rng.randrange(1, 4)):
@@ -405,6 +405,14 @@ def run_master(case, choices):
                 sim.fault("master_signal:" + case["extra"])
                 sim.kill(m.pid, int(signal.SIGTTOU if case["extra"] == "ttou-before" else signal.SIGHUP))
         sim.after(max(0.0, case["sig_at"] - 0.4), retire)
+    elif case.get("extra") == "burst-before":
+        # five other signals reach the master in the same instant, just ahead of the stop signal
+        def burst():
+            if m.state == "running" and int(signal.SIGCHLD) in m.handlers:
+                sim.fault("master_signal_burst")
+                for sg in (signal.SIGUSR1, signal.SIGWINCH, signal.SIGTTIN, signal.SIGTTOU, signal.SIGHUP):
+                    sim.kill(m.pid, int(sg))
+        sim.after(case["sig_at"], burst)
     elif case.get("extra") == "rm-socket" and case["unix"]:
         # the environment removed the socket file before the server is stopped (a /tmp cleaner, an operator): nothing of the server's own
         # may be left behind all the same, and the exit status stays 0
@@ -442,7 +450,13 @@ def run_master(case, choices):
             t_sig = state["sent"]
         if state["sent"] is not None:
             workers = [p for p in sim.procs.values() if p.name.startswith("worker")]
-            if m.state == "running":
+            a_ = w.masters.get(m.pid)
+            if m.state == "running" and case.get("extra") == "burst-before" and t_sig is not None and a_ is not None \
+                    and not getattr(a_, "_world_stopping", False):
+                res.violate("C04:%s:stop-signal-lost-in-burst:%s" % (fam, case["sig"]),
+                            "%s was delivered to the master at t=%.2f right behind five other signals; its handler found the signal queue full "
+                            "(5 entries) and dropped it: the master is still running at t=%.2f; %s" % (case["sig"], t_sig, sim.now, ctx()))
+            elif m.state == "running":
                 res.violate("C04:%s:master-did-not-exit:%s" % (fam, case["sig"]),
                             "%s sent at t=%.2f; the master is still running at t=%.2f; %s" % (case["sig"], state["sent"], sim.now, ctx()))
             else:
